@@ -155,6 +155,9 @@ func (f *FrameV1) initFrame(
 			return errors.New("frame has no builder")
 		}
 		ps := f.builder.GetPooledSlice(requiredSize)
+		if ps == nil {
+			return fmt.Errorf("frame of %d bytes exceeds the maximum frame size", requiredSize)
+		}
 
 		// Return pooled slice to pool.
 		if f.pooledSlice != nil {
